@@ -279,6 +279,14 @@ func (p *c14Parent) gen(r *rand.Rand, emit vutil.Emit) {
 		for s := 0; s < saves; s++ {
 			size := c14Size(r)
 			seed := strconv.FormatUint(r.Uint64N(1<<40), 10)
+			// The variant first: it bounds the size the write fault is drawn from.
+			v := r.IntN(10)
+			switch {
+			case v >= 5 && v < 8 && size > 200000:
+				size = 200000
+			case v >= 8 && size > 1<<20:
+				size = 1 << 20
+			}
 			// Now and then a fault: the destination directory refuses new entries
 			// (the save must fail and leave the file alone), or TMPDIR is unusable.
 			fault := ""
@@ -302,7 +310,7 @@ func (p *c14Parent) gen(r *rand.Rand, emit vutil.Emit) {
 			probe := vc14.Probe(mode, fault)
 			failing := fault == "faildir" || strings.HasPrefix(fault, "fsize=")
 			commit := vutil.B(!failing)
-			switch v := r.IntN(10); {
+			switch {
 			case v < 5:
 				emit("C14.save", "writedb", strconv.Itoa(size), seed, commit, "0", probe)
 			case v < 8:
